@@ -98,6 +98,8 @@ def run(F, chk):
     O2.floor('sort stage functions', len(stages), 1)
     O4 = chk.rule('O4', 'the sorter buffers messages in a multiset container (heap/vector/deque), never in a set or map keyed by the comparator')
     check_buffer_is_multiset(stages, O4)
+    O5 = chk.rule('O5', 'inside the receive loop the sorter pops a buffered message only under the release comparison key + threshold < reception time')
+    check_release_only_by_age(F, stages, O5)
     O3 = chk.rule('O3', 'the release threshold of the sorter is, on every path, the configured minimum delay, its previous value, or minimum + x (never below the minimum)')
     check_threshold_floor(F, stages, O3)
 
@@ -282,3 +284,48 @@ def check_threshold_floor(F, stages, O3):
                                  'the closure %s that recomputes the release threshold can return %s, which is not the previous threshold and not `min_buffer_delay_us + x`: messages can be released before the configured minimum '
                                  'delay has passed, so a later message with a smaller calculated time is delivered out of order' % (cl.path, bad[1] if bad else 'nothing'), where=cl.loc(None))
     O3.floor('definitions of the release threshold', n, 2)
+
+
+# ---------------------------------------------------------------------------------------------
+# O5: inside the receive loop a message leaves the heap only by the age test
+
+def check_release_only_by_age(F, stages, O5):
+    """While messages are still arriving, the only reason to release the oldest buffered message is that it is older than the
+    threshold: every `pop` of the heap inside the receive loop is dominated by the true edge of the release comparison
+    `key + threshold < reception time`.  A second release path (capacity bound, timer, ...) emits messages that a later,
+    legitimately older message should have preceded.  The drain after the end of input is outside the loop."""
+    import guards
+    from expr import ExprBuilder, show
+    n = 0
+    for b in stages:
+        cfg = CFG(b)
+        E = ExprBuilder(cfg, fold_named=True)
+        O5.fn(b.path)
+        loops = cfg.loops()
+        recv_loop = None
+        for hd, lb in loops.items():
+            if any(b.blocks[x].term.k == 'call' and b.blocks[x].term.callee.path == 'std::iter::Iterator::next' and 'mpsc::' in (b.blocks[x].term.args[0].ty or '') for x in lb) or \
+               any(b.blocks[x].term.k == 'call' and re.search(r'mpsc::Receiver::<T>::(recv|recv_timeout|try_recv)$', b.blocks[x].term.callee.path) for x in lb):
+                if recv_loop is None or len(lb) > len(recv_loop):
+                    recv_loop = lb
+        if recv_loop is None:
+            O5.violation(('anchor-lost', 'receive loop', b.path), 'no receive loop found in ' + b.path)
+            continue
+        pops = [blk for blk in b.calls() if re.search(r'(BinaryHeap::<T(, A)?>::pop|PeekMut::<.*>::pop|Vec::<T(, A)?>::pop|VecDeque::<T(, A)?>::pop_front)$', blk.term.callee.path) and
+                'SortedDltMessage' in (blk.term.args[0].ty or '')]
+        for blk in pops:
+            if blk.i not in recv_loop:
+                continue
+            n += 1
+            O5.sites += 1
+            ok = None
+            for (c, truth, D) in guards.known(cfg, E, blk.i):
+                sc = show(c)
+                if truth is True and isinstance(c, tuple) and c[0] == 'bin' and c[1] in ('Lt', 'Le', 'Gt', 'Ge') and 'calculated_time_us' in sc and 'reception_time_us' in sc and 'Add(' in sc:
+                    ok = sc
+            if ok:
+                O5.ok(sample={'pop_at': b.loc(blk.term.sp), 'only_under': ok[:90]})
+            else:
+                O5.violation(('released-without-age-test', b.path), 'the sorter pops a buffered message at %s inside the receive loop without a dominating release comparison (key + threshold < reception time): '
+                             'a message can be emitted before the threshold has passed and a later, older message follows it' % b.loc(blk.term.sp), where=b.loc(blk.term.sp))
+    O5.floor('heap pops inside the receive loop of the sorter', n, 1)
